@@ -267,6 +267,14 @@ def nontrivial(case: Case, out: list[str]) -> bool:
     # serializer: >= 2 clients compete in one cycle (or there is one port) and the queue gets full at least once
     compete = case.desc["ports"] == 1 or any(sum(x != "-" for x in i["in"].split(",")) >= 2 and o["in"] != "-" for i, o in zip(ins, obs))
     full = any(any(x != "-" for x in i["in"].split(",")) and i["req"] == "1" and o["in"] == "-" for i, o in zip(ins, obs))
+    if case.desc["depth"] >= 6:
+        # deep queue: >= 3 requests outstanding at the server at some point and >= 2 * depth responses delivered
+        pend = mx = nout = 0
+        for o in obs:
+            pend += (o["in"] != "-") - (o["out"] != "-")
+            nout += o["out"] != "-"
+            mx = max(mx, pend)
+        return compete and mx >= 3 and nout >= 2 * case.desc["depth"]
     return compete and full and any(o["out"] != "-" for o in obs)
 
 
@@ -350,7 +358,7 @@ def gen_cases(ctx: Check, rng) -> list[Case]:
             cases.append(_zcase(3, 4, ops, "exhaustive"))
     # ---- serializer: all port counts / depths in a range, several traffic regimes
     ports_l = [1, 2, 3, 4] if not thorough else [1, 2, 3, 4, 5, 6, 8]
-    depth_l = [1, 2, 3, 5] if not thorough else [1, 2, 3, 4, 5, 6, 7, 8, 9]
+    depth_l = [1, 2, 3, 5] if not thorough else [1, 2, 3, 4, 5, 6, 7, 8, 9, 10, 12, 14]
     regimes = [
         (0.6, 0.7, 0.8, 0.8, 0.0),  # balanced
         (0.9, 0.9, 1.0, 0.3, 0.0),  # slow server: queue fills
@@ -366,6 +374,15 @@ def gen_cases(ctx: Check, rng) -> list[Case]:
                 cases.append(
                     _scase(ports, depth, w, _sops(rng, ports, w, n, pin, pout, preq, presp, pclr), "random")
                 )
+    # deep queues whose depth is even but not a power of two (6, 10; thorough: also 7, 12): slow server and fast
+    # clients keep >= 3 (up to depth) requests outstanding while the FIFO pointers wrap around several times
+    for depth in ([6, 10] if not thorough else [6, 7, 10, 12]):
+        for ports in ([2, 3] if not thorough else [2, 3, 4]):
+            w = rng.choice([4, 6])
+            for pin, pout, preq, presp in [(0.95, 1.0, 1.0, 0.45), (0.8, 0.9, 0.95, 0.6)]:
+                ops = _sops(rng, ports, w, 40, 1.0, 1.0, 1.0, 0.0, 0.0)[: depth + 2]  # fill up, server silent
+                ops += _sops(rng, ports, w, 12 * depth if not thorough else 30 * depth, pin, pout, preq, presp, 0.0)
+                cases.append(_scase(ports, depth, w, ops, "directed"))
     if thorough:
         # every history of 3 steps for 2 ports, depth 1 and 2: per step which ports request, server bits, optional drain
         for depth in (1, 2):
@@ -408,7 +425,8 @@ def run(ctx: Check):
         "case = (component, configuration, history of attempted client calls and server readiness/response data per "
         "cycle); zipper non-trivial = a result is forwarded in its write cycle, another is read from the buffer, and "
         "the argument FIFO is full at least once; serializer non-trivial = two clients compete for the server in one "
-        "cycle, the pending queue fills up, and responses are delivered"
+        "cycle, the pending queue fills up, and responses are delivered (depth >= 6: >= 3 requests outstanding and the "
+        "queue pointers wrap at least twice)"
     )
     ctx.proof_stage()
     cases = gen_cases(ctx, ctx.rng("gen"))
